@@ -1,4 +1,357 @@
 package main
 
-func checkMain(args []string) int    { return 2 }
-func selftestMain(args []string) int { return 2 }
+import (
+	"encoding/json"
+	"fmt"
+	"os"
+	"path/filepath"
+	"regexp"
+	"sort"
+	"strconv"
+	"strings"
+	"time"
+
+	"govc/vc"
+)
+
+// stopOnFail: set by the selftest, where one failed obligation per mutant is all that is asked for.
+var stopOnFail bool
+
+const verifRoot = "/verif"
+const repoRoot = "/repo"
+
+type propRun struct {
+	cfg         *PropCfg
+	prog        *vc.Prog
+	outs        []*vc.Outcome
+	sums        []*vc.ObSummary
+	funcs       []string
+	lemmas      []string
+	notVerified map[string]string
+	loadErr     error
+	wall        float64
+	solveTime   float64
+	paths       int
+	queries     int
+	notes       []string
+}
+
+// runProp loads the packages (with an optional overlay), generates the obligations of the
+// property's functions and discharges them.
+func runProp(cfg *PropCfg, timeout time.Duration, overlay map[string][]byte, work string, confirm bool, jobs int) *propRun {
+	t0 := time.Now()
+	r := &propRun{cfg: cfg, notVerified: map[string]string{}}
+	prog, err := vc.Load(vc.LoadConfig{Dir: repoRoot, Patterns: cfg.Pkgs, Overlay: overlay})
+	if err != nil {
+		r.loadErr = err
+		return r
+	}
+	r.prog = prog
+	for _, e := range prog.BindErrors {
+		r.notVerified["bind: "+e] = e
+	}
+	var all []*vc.Query
+	for _, pk := range prog.Pkgs {
+		short := pk.PkgPath[strings.LastIndex(pk.PkgPath, "/")+1:]
+		_ = short
+		for _, c := range prog.Functions(pk.PkgPath) {
+			if c.C.Trusted {
+				continue
+			}
+			if cfg.re != nil && !cfg.re.MatchString(c.C.Key()) {
+				continue
+			}
+			name := pk.PkgPath + "." + c.C.Key()
+			res := prog.VerifyFunc(c)
+			if res.Unsupported != "" {
+				r.notVerified[name] = res.Unsupported
+				continue
+			}
+			r.funcs = append(r.funcs, name)
+			r.paths += res.Paths
+			r.notes = append(r.notes, res.Notes...)
+			all = append(all, res.Queries...)
+		}
+		for _, ld := range prog.Lemmas[pk.PkgPath] {
+			if cfg.re != nil && !cfg.re.MatchString("lemma "+ld.L.Name) {
+				continue
+			}
+			name := pk.PkgPath + ".lemma " + ld.L.Name
+			res := prog.VerifyLemma(ld)
+			if res.Unsupported != "" {
+				r.notVerified[name] = res.Unsupported
+				continue
+			}
+			r.lemmas = append(r.lemmas, name)
+			all = append(all, res.Queries...)
+		}
+	}
+	// Every obligation of the selected functions is discharged: a postcondition is only proved
+	// relative to the loop invariants, callee preconditions and frame conditions of its function,
+	// so none of them may be filtered out. cfg.Obs only selects the obligations that are shown
+	// as the property's headline clauses in the evidence.
+	r.queries = len(all)
+	_ = os.RemoveAll(work)
+	t1 := time.Now()
+	r.outs = prog.SolveAll(all, vc.SolveConfig{WorkDir: work, Timeout: timeout, Jobs: jobs, Keep: false, Confirm: confirm, StopOnFail: stopOnFail})
+	r.solveTime = time.Since(t1).Seconds()
+	r.sums = vc.Summarise(r.outs)
+	r.wall = time.Since(t0).Seconds()
+	return r
+}
+
+type finding struct {
+	kind, prop, ob, text string
+}
+
+func loadFindings() []finding {
+	b, err := os.ReadFile(filepath.Join(verifRoot, "known_findings.txt"))
+	if err != nil {
+		return nil
+	}
+	var out []finding
+	re := regexp.MustCompile(`^(finding|fixed):\s+property=(\S+)\s+(?:obligation=(\S+)\s+)?(.*)$`)
+	for _, l := range strings.Split(string(b), "\n") {
+		l = strings.TrimSpace(l)
+		if m := re.FindStringSubmatch(l); m != nil {
+			out = append(out, finding{kind: m[1], prop: m[2], ob: m[3], text: m[4]})
+		}
+	}
+	return out
+}
+
+func sanitizeFile(s string) string {
+	return regexp.MustCompile(`[^A-Za-z0-9_.\-]+`).ReplaceAllString(s, "_")
+}
+
+func checkMain(args []string) int {
+	if len(args) < 1 {
+		fmt.Fprintln(os.Stderr, "usage: govc check <property> [quick|thorough] [--replay file]")
+		return 2
+	}
+	id := args[0]
+	tier := "quick"
+	if len(args) > 1 && !strings.HasPrefix(args[1], "--") {
+		tier = args[1]
+	}
+	if t := os.Getenv("VERIF_TIER"); t != "" && len(args) < 2 {
+		tier = t
+	}
+	for i, a := range args {
+		if a == "--replay" && i+1 < len(args) {
+			return replayMain(id, args[i+1])
+		}
+	}
+	cfg := findProp(id)
+	if cfg == nil {
+		fmt.Fprintln(os.Stderr, "unknown property", id)
+		return 2
+	}
+	seed := 0
+	if s := os.Getenv("VERIF_SEED"); s != "" {
+		seed, _ = strconv.Atoi(s)
+	}
+	timeout := 20 * time.Second
+	confirm := false
+	if tier == "thorough" {
+		timeout = 60 * time.Second
+		confirm = true
+	}
+	work := filepath.Join(verifRoot, ".work", id+"-"+tier)
+	r := runProp(cfg, timeout, nil, work, confirm, 6)
+	if r.loadErr != nil {
+		fmt.Fprintln(os.Stderr, "govc: cannot load /repo:", r.loadErr)
+		// the tree does not build: that is not a property violation we can attribute; report as engine failure
+		return 2
+	}
+	findings := loadFindings()
+	known := map[string]finding{}
+	for _, f := range findings {
+		if f.kind == "finding" && f.prop == id {
+			known[f.ob] = f
+		}
+	}
+	violations := 0
+	var failed []*vc.ObSummary
+	byBackend := map[string]int{}
+	discharged := 0
+	var samples []map[string]any
+	for _, s := range r.sums {
+		for b, n := range s.Backends {
+			if b != "" {
+				byBackend[b] += n
+			}
+		}
+		ok := s.Status == "proved" || s.Status == "covered"
+		if ok {
+			discharged++
+			if len(samples) < 16 && !strings.Contains(s.Ob, "cover.") && (cfg.obre == nil || cfg.obre.MatchString(s.Ob)) && (cfg.obre != nil || strings.Contains(s.Ob, "#post") || strings.Contains(s.Ob, "#behavior") || strings.Contains(s.Ob, "#lemma") || strings.Contains(s.Ob, "inv")) {
+				samples = append(samples, map[string]any{"obligation": s.Ob, "status": s.Status, "queries": s.Paths, "solver_time_s": round3(s.Time), "backends": s.Backends, "what": s.Worst.Q.Desc})
+			}
+			continue
+		}
+		failed = append(failed, s)
+	}
+	// functions that could not be brought under the verifier count as failed obligations
+	var nvKeys []string
+	for k := range r.notVerified {
+		nvKeys = append(nvKeys, k)
+	}
+	sort.Strings(nvKeys)
+	replayDir := filepath.Join(verifRoot, "replays", id)
+	for _, k := range nvKeys {
+		ob := k + "#verifiable"
+		if f, ok := known[ob]; ok {
+			fmt.Printf("KNOWN-FINDING: property=%s %s %s\n", id, ob, f.text)
+			continue
+		}
+		violations++
+		_ = os.MkdirAll(replayDir, 0o755)
+		path := filepath.Join(replayDir, sanitizeFile(ob)+".json")
+		writeJSON(path, map[string]any{"property": id, "obligation": ob, "status": "undecided", "reason": r.notVerified[k],
+			"note": "the function (or its contract) is outside what the verifier accepts after this change; the obligation that passed on the unchanged tree can no longer be generated"})
+		fmt.Printf("VIOLATION property=%s replay=%s obligation=%s no-failing-input-found\n", id, path, ob)
+	}
+	for _, s := range failed {
+		if f, ok := known[s.Ob]; ok {
+			fmt.Printf("KNOWN-FINDING: property=%s %s %s\n", id, s.Ob, f.text)
+			continue
+		}
+		violations++
+		_ = os.MkdirAll(replayDir, 0o755)
+		path := filepath.Join(replayDir, sanitizeFile(s.Ob)+".json")
+		rep := buildReplay(r, s)
+		writeJSON(path, rep)
+		suffix := ""
+		if rep["reproduced"] != true {
+			suffix = " no-failing-input-found"
+		}
+		fmt.Printf("VIOLATION property=%s replay=%s obligation=%s status=%s%s\n", id, path, s.Ob, s.Status, suffix)
+	}
+	// evidence
+	var trusted []string
+	for k := range r.prog.Trusted {
+		trusted = append(trusted, "trusted contract: "+k)
+	}
+	sort.Strings(trusted)
+	assumptions := append([]string{}, baseAssumptions...)
+	for a := range r.prog.Assumptions {
+		assumptions = append(assumptions, a)
+	}
+	for _, u := range cfg.Unverified {
+		assumptions = append(assumptions, "not decided by this check: "+u)
+	}
+	sort.Strings(assumptions)
+	sort.Strings(r.funcs)
+	nv := []string{}
+	for _, k := range nvKeys {
+		nv = append(nv, k+": "+r.notVerified[k])
+	}
+	total := len(r.sums) + len(nvKeys)
+	ev := map[string]any{
+		"property_id": id,
+		"tier":        tier,
+		"seed":        seed,
+		"level":       "proof",
+		"coverage": map[string]any{
+			"obligations":              total,
+			"discharged":               discharged,
+			"checker_cmd":              fmt.Sprintf("/verif/bin/govc check %s %s", id, tier),
+			"trusted_base":             append(trusted, "govc (VC generator, SMT encoding, stdlib models)", "z3-new 5.1.0 / z3 4.8.12 / cvc5 1.0"),
+			"functions_under_contract": r.funcs,
+			"lemmas":                   r.lemmas,
+			"functions_not_verified":   nv,
+			"by_backend":               byBackend,
+			"solver_time_s":            round3(r.solveTime),
+			"paths":                    r.paths,
+			"queries":                  r.queries,
+			"samples":                  samples,
+			"partial_scope":            cfg.Scope,
+			"notes":                    dedupe(r.notes),
+		},
+		"assumptions": assumptions,
+		"wall_s":      round3(r.wall),
+		"violations":  violations,
+	}
+	_ = os.MkdirAll(filepath.Join(verifRoot, "evidence"), 0o755)
+	writeJSON(filepath.Join(verifRoot, "evidence", id+".json"), ev)
+	fmt.Printf("%s %s: %d obligations, %d discharged, %d violations, %d functions, %.1fs\n", id, tier, total, discharged, violations, len(r.funcs), r.wall)
+	if total == 0 {
+		fmt.Println("govc: no obligations generated (vacuous check)")
+		return 2
+	}
+	if violations > 0 {
+		return 1
+	}
+	return 0
+}
+
+var baseAssumptions = []string{
+	"int/uint/uintptr are 64 bit (amd64)",
+	"slice and string headers: 0 <= len <= cap <= 2^48 and offset <= 2^48 (address-space bound), used to rule out wrap-around of length arithmetic",
+	"pointer parameters of scalar type point to their own cell (no aliasing with fields or elements reachable through other parameters)",
+	"package-level error variables are non-nil, never reassigned, pairwise distinct",
+	"the Go compiler, runtime and go/ssa agree with the Go specification",
+	"recursion depth / goroutine stack is not modelled",
+}
+
+func round3(f float64) float64 { return float64(int(f*1000)) / 1000 }
+
+func dedupe(in []string) []string {
+	seen := map[string]bool{}
+	out := []string{}
+	for _, s := range in {
+		if !seen[s] {
+			seen[s] = true
+			out = append(out, s)
+		}
+	}
+	return out
+}
+
+func writeJSON(path string, v any) {
+	b, _ := json.MarshalIndent(v, "", " ")
+	_ = os.WriteFile(path, append(b, '\n'), 0o644)
+}
+
+// buildReplay records a failed obligation: the solver output, the model if any, and (when a
+// model exists and the function is replayable) the outcome of running the real code on it.
+func buildReplay(r *propRun, s *vc.ObSummary) map[string]any {
+	o := s.Worst
+	rep := map[string]any{
+		"property":   r.cfg.ID,
+		"obligation": s.Ob,
+		"function":   o.Q.Func,
+		"status":     s.Status,
+		"position":   o.Q.Pos.String(),
+		"what":       o.Q.Desc,
+		"path":       o.Q.Trace,
+		"solvers":    o.Tried,
+		"solver_output": o.Detail,
+		"reproduced": false,
+	}
+	if o.Model != "" {
+		rep["model"] = o.Model
+	}
+	replayOnRealCode(r, s, rep)
+	return rep
+}
+
+func replayMain(id, path string) int {
+	b, err := os.ReadFile(path)
+	if err != nil {
+		fmt.Fprintln(os.Stderr, err)
+		return 2
+	}
+	var rep map[string]any
+	if err := json.Unmarshal(b, &rep); err != nil {
+		fmt.Fprintln(os.Stderr, err)
+		return 2
+	}
+	fmt.Printf("obligation %v (%v) at %v\n%v\n", rep["obligation"], rep["status"], rep["position"], rep["what"])
+	if t, ok := rep["test_source"].(string); ok {
+		return runReplayTest(rep, t)
+	}
+	fmt.Println("no replay test recorded for this obligation (no-failing-input-found)")
+	return 0
+}
